@@ -10,7 +10,12 @@ HEADER = ("From Coq Require Import ZArith List Bool Arith.\nFrom Core Require Im
           "Import ListNotations.\n")
 
 
-def rand_mat(rnd, m, n, cplx, vmax=3):
+def rand_mat(rnd, m, n, cplx, vmax=3, big=False):
+    if big:
+        # integers around 2^24 that are NOT representable in single precision (exact in double): an operand of a wider dtype
+        # than the operator must not be rounded to the operator's precision on the way
+        bv = lambda: rnd.choice([-1, 1]) * 2 ** 24 + 2 * rnd.randint(-3, 3) + 1
+        return [[[bv(), (bv() if rnd.random() < 0.5 else rnd.randint(-2, 2)) if cplx else 0] for _ in range(n)] for _ in range(m)]
     return [[[rnd.randint(-vmax, vmax), rnd.randint(-2, 2) if cplx else 0] for _ in range(n)] for _ in range(m)]
 
 
@@ -68,6 +73,33 @@ def gen_cases(ctx, n_cases, gen, depth_max, bound=2 ** 20, accept=None):
                 continue
         elif u < 0.40:
             t = gen.tree(rnd.randint(1, depth_max), None, "mix")
+        elif u < 0.47 and {"Transp", "Adj"} & set(gen.kinds):
+            # lazy Transpose / Adjoint directly over every leaf kind at size 3 (a permutation needs a 3-cycle, a sparse
+            # pattern several entries per column, ... to tell a left product from a right one)
+            lk = [k_ for k_ in T.LEAF if k_ in gen.kinds]
+            k = lk[tries % len(lk)]
+            inner = T.rooted(gen, k, 3, 3 if k in T.SQUARE_ONLY else rnd.randint(2, 3), cplx=rnd.choice([False, True]), depth=0)
+            if inner is None:
+                continue
+            t = dict(k=rnd.choice([w for w in ("Transp", "Adj") if w in gen.kinds]), a=inner)
+            if rnd.random() < 0.2:
+                t = dict(k=rnd.choice([w for w in ("Transp", "Adj") if w in gen.kinds]), a=t)
+        elif rnd.random() < 0.06 and "Sparse" in gen.kinds and not gen.sparse_sorted:
+            # larger sparse patterns (5..8 rows/columns, 40-80 % fill, several entries per row and column, shuffled order):
+            # index sorting inside Sparse and its transposes only matters beyond a handful of entries
+            m_, n_ = rnd.randint(5, 8), rnd.randint(5, 8)
+            pos = rnd.sample([(i, j) for i in range(m_) for j in range(n_)], rnd.randint(int(0.4 * m_ * n_), int(0.8 * m_ * n_)))
+            dt_ = gen.dt(rnd.random() < 0.5)
+            t = dict(k="Sparse", dt=dt_, m=m_, n=n_, ent=[[i, j, gen.val(dt_)] for i, j in pos])
+            w_ = rnd.random()
+            if w_ < 0.5 and {"Transp", "Adj"} & set(gen.kinds):
+                t = dict(k=rnd.choice([w for w in ("Transp", "Adj") if w in gen.kinds]), a=t)
+            elif w_ < 0.7 and "Prod" in gen.kinds:
+                t = dict(k="Prod", ms=[gen.tree(0, (rnd.randint(1, 3), m_)), t])
+        elif rnd.random() < 0.05:
+            t = T.near_real_tree(gen, rnd)
+            if rnd.random() < 0.5 and {"Transp", "Adj"} & set(gen.kinds):
+                t = dict(k=rnd.choice([w for w in ("Transp", "Adj") if w in gen.kinds]), a=t)
         elif rnd.random() < 0.08:   # wide operators: the generic to_dense path multiplies the identity on the left
             t = gen.tree(rnd.randint(0, 2), (1, rnd.randint(9, 12)))
         elif rnd.random() < 0.05:  # 1xN / Nx1
@@ -81,10 +113,14 @@ def gen_cases(ctx, n_cases, gen, depth_max, bound=2 ** 20, accept=None):
         xc = rnd.random() < (0.6 if tree_cplx else 0.25)
         k = rnd.choice([1, 2, 3])
         dx = rnd.choice(T.CPLX if xc else T.REAL)
-        case = dict(tree=t, m=m, n=n, k=k, dx=dx, X=rand_mat(rnd, n, k, xc), XL=rand_mat(rnd, k, m, xc))
+        wide64 = set(leaf_dts(t)) <= {"float64", "complex128", "int64"}
+        if wide64 and T.absbound(t) > 2 ** 18:
+            dx = "complex128" if xc else "float64"       # large 64-bit payloads: operand in double precision as well
+        big = dx in ("float64", "complex128") and rnd.random() < 0.25 and not has_kind(t, ("Gen",)) and T.absbound(t) <= 2 ** 18
+        case = dict(tree=t, m=m, n=n, k=k, dx=dx, X=rand_mat(rnd, n, k, xc, big=big), XL=rand_mat(rnd, k, m, xc, big=big), big_operand=big)
         if accept and not accept(case):
             continue
-        if T.absbound(t) * 5 * max(n, m) > bound:
+        if T.absbound(t) * 5 * max(n, m) > (2 ** 45 if (wide64 and dx in ("float64", "complex128")) else bound):
             continue
         cases.append(case)
     return cases
